@@ -535,6 +535,7 @@ OrderKinds == {"coef-identity", "const-identity", "xmeasure-domain"}
 -----------------------------------------------------------------------------
 (* renamings: only ignorable numbering changes *)
 Keys(p, I) == {<<p.doms[I.dom][D_UID], I.itype, I.sid[i]>> \o XmKey(p, I) : i \in DOMAIN I.sid}
+ClassRenamings == {"rename-coefficient-classes-uniform", "rename-coefficient-classes-shift", "rename-constant-classes"}
 UsesCls(p) == \E c \in UsedCoefs(p) : p.coefs[c][C_CLS] # 0
 
 Renamings(p) ==
@@ -792,7 +793,9 @@ Mutate ==
 
 Rename ==
   /\ lvl = 0 \/ (lvl = 1 /\ Ren2)
-  /\ \E c \in Renamings(q) :
+  \* the class renamings of a MUTANT only in the large configuration (Lvl = 2): they triple the
+  \* neighbourhoods of the small one for little (the base programs mix the classes already)
+  /\ \E c \in (IF lvl = 0 \/ Lvl = 2 THEN Renamings(q) ELSE {x \in Renamings(q) : x.kind[1] \notin ClassRenamings}) :
        LET r == CanonRep(c.q) IN
        /\ q' = c.q /\ kind' = kind \o c.kind /\ lvl' = lvl + 2
        /\ rep' = r /\ renok' = (r = rep) /\ srep' = StripRep(c.q)
